@@ -1,3 +1,4 @@
+import RavenModel.Gen.Facts
 import RavenModel.Model.Plan
 import RavenModel.Model.Lifetime
 /-! # C20 — sessions end when their client is gone; services shut down cleanly -/
@@ -125,5 +126,11 @@ theorem plan_deadlines :
     Raven.Gen.deadlines.all (fun d => d.ms ≠ 0) = true ∧
     Raven.Gen.deadlines.length = 11 := by
   decide
+
+/-- C20.12  the limit of a silent IDLE is measured from one moment: the variable compared with `IdleTimeout` is assigned once,
+before the polling loop, and nowhere inside it — so what `idle_silence_closes` counts as rounds of silence is the client's
+silence, whatever the mailbox does meanwhile (a loop that restarts the clock on every change of the mailbox never ends under a
+steady stream of deliveries). Regenerated from /repo on every run. -/
+theorem idle_clock_counts_silence : Raven.Gen.idleClock = ((b!"idleSince"), 1, 0) := by decide
 
 end Raven.Props.C20
